@@ -1343,14 +1343,23 @@ macro_rules! define_gfgen { ($typename:ident, $fieldparams:ident, $submod:ident,
                 // representation) yield d0*k in normal representation.
                 // Moreover, thalf = 2^(32*N), which is the Montgomery
                 // representation of 1/2^(32*N).
-                let mut e = (s1 * self - s0) * thalf - k;
+                // We try b = 0 first (no correction), then +1 and -1, so
+                // that when several (a, b) pairs are consistent (e.g. for
+                // k = 0) the smallest correction is used.
+                let e0 = (s1 * self - s0) * thalf;
                 let mut one = Self::ZERO;
                 one.0[0] = 1;
                 let mut minus_one = Self(Self::MODULUS);
                 minus_one.0[0] &= !1u64;
                 let mut a = -100i32;
-                let mut b = -1i32;
-                for _ in 0..3 {
+                let mut b = 0i32;
+                for bb in [0i32, 1, -1] {
+                    let e = match bb {
+                        0 => e0,
+                        1 => e0 + k,
+                        _ => e0 - k,
+                    };
+                    b = bb;
                     if e.iszero() != 0 {
                         a = 0;
                         break;
@@ -1363,8 +1372,6 @@ macro_rules! define_gfgen { ($typename:ident, $fieldparams:ident, $submod:ident,
                         a = -1;
                         break;
                     }
-                    e += k;
-                    b += 1;
                 }
                 assert!(a != -100);
 
